@@ -417,10 +417,26 @@ func runPoolOps(cfg poolCfg, ops []poolOp) (tr poolTrace) {
 					srv.mu.Unlock()
 				}
 			}
+			wasHeld := held[op.W]
 			h.Release()
 			held[op.W] = false
-			ev("%s %d", op.Op, op.W)
-			time.Sleep(2 * time.Millisecond) // destruction is asynchronous
+			time.Sleep(3 * time.Millisecond) // destruction is asynchronous
+			outcome := "noop"
+			if cid, ok := connOf[op.W]; ok && wasHeld {
+				srv.mu.Lock()
+				pc := srv.conns[cid]
+				pc.scriptConn.mu.Lock()
+				if pc.scriptConn.closed {
+					outcome = fmt.Sprintf("destroyed:%d", cid)
+				} else {
+					outcome = fmt.Sprintf("idle:%d", cid)
+				}
+				pc.scriptConn.mu.Unlock()
+				srv.mu.Unlock()
+			} else if wasHeld {
+				outcome = "?"
+			}
+			ev("%s %d -> %s", op.Op, op.W, outcome)
 		case "sleep":
 			time.Sleep(time.Duration(op.Ms) * time.Millisecond)
 			st := pool.Stat()
@@ -442,6 +458,9 @@ func runPoolOps(cfg poolCfg, ops []poolOp) (tr poolTrace) {
 			closedPool = true
 			ev("close")
 		}
+	}
+	if !closedPool {
+		ev("end total=%d", pool.Stat().TotalResources())
 	}
 	return
 }
@@ -487,8 +506,82 @@ func poolOpsString(ops []poolOp) string {
 	return strings.Join(p, " ")
 }
 
+// correspondC11 replays the observed events on Model.Pool (driver) and compares what each step did
+func correspondC11(c *Ctx, cfg poolCfg, ops []poolOp, tr poolTrace) {
+	if c.D == nil || tr.panicked != "" || cfg.LifeMs < 10000 {
+		return
+	}
+	for _, o := range ops {
+		if o.Op == "sleep" {
+			return
+		}
+	}
+	var toks, want []string
+	total := -1
+	for _, e := range tr.events {
+		f := strings.Fields(e)
+		switch {
+		case f[0] == "acquire" && len(f) >= 5 && f[3] == "conn" && f[4] != "?":
+			toks = append(toks, "a"+f[1]+":"+f[4])
+			want = append(want, "conn|new")
+		case f[0] == "acquire" && len(f) >= 4 && f[3] == "blocked":
+			toks = append(toks, "a"+f[1]+":b")
+			want = append(want, "blocked")
+		case f[0] == "acquire":
+			return // unidentified connection: reported by the oracle
+		case (f[0] == "release" || f[0] == "release-again") && len(f) >= 4:
+			toks = append(toks, "r"+f[1])
+			want = append(want, f[3])
+		case f[0] == "do" && len(f) >= 3 && f[2] == "cut":
+			toks = append(toks, "f"+f[1])
+			want = append(want, "ok")
+		case f[0] == "close":
+			toks = append(toks, "c")
+			want = append(want, "closed")
+		case f[0] == "end":
+			fmt.Sscanf(f[1], "total=%d", &total)
+		}
+	}
+	if len(toks) == 0 {
+		return
+	}
+	ans := c.D.Ask(fmt.Sprintf("c11.run %d %s", cfg.MaxConns, strings.Join(toks, ",")))
+	c.R.Compared()
+	parts := strings.Split(ans, " | ")
+	got := strings.Fields(parts[0])
+	cs := map[string]any{"config": cfg, "ops": ops, "events": tr.events, "model_steps": strings.Join(toks, ","), "model": ans}
+	bad := ""
+	if len(parts) != 2 || len(got) != len(want) {
+		bad = "model driver answered " + ans
+	} else {
+		for i := range want {
+			okk := false
+			for _, w := range strings.Split(want[i], "|") {
+				if got[i] == w {
+					okk = true
+				}
+			}
+			if !okk {
+				bad = fmt.Sprintf("step %d (%s): implementation %s, model %s", i, toks[i], want[i], got[i])
+				break
+			}
+		}
+		if bad == "" && total >= 0 {
+			var live, handles int
+			fmt.Sscanf(parts[1], "live=%d handles=%d", &live, &handles)
+			if live != total {
+				bad = fmt.Sprintf("at the end the pool holds %d connections, the model %d", total, live)
+			}
+		}
+	}
+	if bad != "" {
+		c.R.Violate(Violation{Kind: "correspondence", Key: "pool-model-differs", What: "Model.Pool and chpool disagree: " + bad, Case: cs, Obligation: "Model.Pool corresponds to chpool"})
+	}
+}
+
 func c11Report(c *Ctx, cfg poolCfg, ops []poolOp, tr poolTrace) {
 	R := c.R
+	correspondC11(c, cfg, ops, tr)
 	cs := map[string]any{"config": cfg, "ops": ops, "events": tr.events}
 	if tr.panicked != "" {
 		R.Violate(Violation{Kind: "oracle", Key: "pool-panic", What: "the operation sequence made the pool panic: " + tr.panicked, Case: cs})
